@@ -25,9 +25,12 @@ from .corecommon import pool
 
 PROPS = ["MxlVerif.Props.C06"]
 FNS_PER_MODULE = 8
+SESSION_MOD = {"K1": "1/4", "K2": "4", "K3": "2", "HD": "2"}
+SESSION_HELPER = {"HC": "1/2", "HD": "2"}
 
 # priority order matters only among the ids that are listed as "known"
 FINDINGS = [
+    ("F-C06-10", lambda f, fl, ren, params: "local_import_alias" in f),
     ("F-C06-9", lambda f, fl, ren, params: "call_kw_nopos" in f),
     ("F-C06-3", lambda f, fl, ren, params: "cmp_eqne" in f),
     ("F-C06-4", lambda f, fl, ren, params: (ren is not None and ren != params and set(ren) & set(params)) or "call_user" in f),
@@ -84,7 +87,7 @@ def make_jobs(ctx, nfn: int, wd: Path):
     g0 = L.Gen(rng, helper)
     # module 0: the fixed templates
     jobs.append({"workdir": str(wd), "mod": "c06m_t", "helper": helper,
-                 "sources": {helper: L.HELPER_SRC, "c06m_t": g0.header() + L.TEMPLATES},
+                 "sources": {helper: L.HELPER_SRC, "c06g": L.HELPER2_SRC, "c06m_t": g0.header() + L.TEMPLATES},
                  "fns": L.template_names(), "seed": 0, "npoints": 14, "known_keys": ctx.known_keys})
     # the library's own rate laws (mxlpy.fns), as shipped
     try:
@@ -98,6 +101,14 @@ def make_jobs(ctx, nfn: int, wd: Path):
         ctx.extra_cov["mxlpy_fns_functions"] = len(fn_names)
     except Exception as e:  # noqa: BLE001
         ctx.notes.append(f"mxlpy.fns stratum unavailable: {e!r}")
+    # function-local imports whose names collide with module-level names of the caller / callee (seed-independent)
+    li = L.local_import_sources()
+    li_names = [f"li{i}" for i in range(len(li) - 1)]
+    ctx.extra_cov["local_import_programs"] = len(li_names)
+    jobs.append({"workdir": str(wd), "mod": "c06m_li", "helper": helper,
+                 "sources": {helper: L.HELPER_SRC, "c06g": L.HELPER2_SRC, "c06m_li": g0.header() + "\n\n".join(li)},
+                 "fns": li_names, "seed": 5, "npoints": 8, "known_keys": ctx.known_keys,
+                 "renamings": {n: [None, ["y", "x"]] for n in li_names}})
     # every legal call shape (positional / keyword / defaults left out) of the helper signatures (seed-independent)
     exprs = ["x", "y", "z", "(x + y)", "(y * 2)", "(z - 1)"]
     srcs, names = [], []
@@ -113,11 +124,11 @@ def make_jobs(ctx, nfn: int, wd: Path):
     for m in range(0, len(names), 16):
         mod = f"c06m_k{m // 16}"
         jobs.append({"workdir": str(wd), "mod": mod, "helper": helper,
-                     "sources": {helper: L.HELPER_SRC, mod: g0.header() + "\n\n".join(srcs[m:m + 16])},
+                     "sources": {helper: L.HELPER_SRC, "c06g": L.HELPER2_SRC, mod: g0.header() + "\n\n".join(srcs[m:m + 16])},
                      "fns": names[m:m + 16], "seed": 3, "npoints": 8, "known_keys": ctx.known_keys,
                      "renamings": {n: [None, ["z", "x", "y"]] for n in names[m:m + 16]}})
     # the helper signatures themselves, with fewer model_args than parameters
-    jobs.append({"workdir": str(wd), "mod": helper, "helper": helper, "sources": {helper: L.HELPER_SRC},
+    jobs.append({"workdir": str(wd), "mod": helper, "helper": helper, "sources": {helper: L.HELPER_SRC, "c06g": L.HELPER2_SRC},
                  "fns": [sg[0] for sg in L.SIGS], "seed": 4, "npoints": 10, "known_keys": ctx.known_keys,
                  "renamings": {"hdef": [None, ["a"], ["b", "a"], ["p", "q", "r"], ["d", "c", "b", "a"]],
                                "hone": [None, ["m0"], ["r", "a"]], "hkw": [None, ["m0"]], "hmd": [None, ["b", "a"], ["b", "a", "c"]]}})
@@ -129,7 +140,7 @@ def make_jobs(ctx, nfn: int, wd: Path):
         src = "\n\n".join(f"def {n}(x, y):\n{b}\n" for n, b in zip(names, bodies[m:m + 16]))
         mod = f"c06m_e{m // 16}"
         jobs.append({"workdir": str(wd), "mod": mod, "helper": helper,
-                     "sources": {helper: L.HELPER_SRC, mod: g0.header() + src},
+                     "sources": {helper: L.HELPER_SRC, "c06g": L.HELPER2_SRC, mod: g0.header() + src},
                      "fns": names, "seed": 1, "npoints": 8, "known_keys": ctx.known_keys,
                      "renamings": {n: [None, ["y", "x"]] for n in names}})
     nfixed = len(jobs)
@@ -144,8 +155,14 @@ def make_jobs(ctx, nfn: int, wd: Path):
             names.append(name)
         mod = f"c06m_{m}"
         jobs.append({"workdir": str(wd), "mod": mod, "helper": helper,
-                     "sources": {helper: L.HELPER_SRC, mod: g.header() + "\n\n".join(srcs)},
+                     "sources": {helper: L.HELPER_SRC, "c06g": L.HELPER2_SRC, mod: g.header() + "\n\n".join(srcs)},
                      "fns": names, "seed": rng.randrange(1 << 30), "npoints": 12, "known_keys": ctx.known_keys})
+    # session step for every generated module: after the first translation the module-level constants are re-bound
+    # (in the module itself and in the helper module it reads through `hp.`), then everything that reads one is
+    # translated and executed again in the same process
+    for i, j in enumerate(jobs):
+        if not j.get("external") and j["mod"] != helper and (i < nfixed or i % 2 == 0):
+            j["session"] = {j["mod"]: SESSION_MOD, helper: SESSION_HELPER}
     return jobs, nfixed
 
 
@@ -206,7 +223,8 @@ def judge_fn(ctx, job, res, resps):
         py = ob.get("py", res["py"])
         mask = [i for i, v in enumerate(py) if v not in ("undef", "nonnum", "inexact")]
         case = {"sources": {} if job.get("external") else
-                {job["helper"]: job["sources"][job["helper"]], job["mod"]: res["min_src"]},
+                {**{n: v for n, v in job["sources"].items() if n != job["mod"]}, job["mod"]: res["min_src"]},
+                **({"session": job["session"]} if res.get("session2") else {}),
                 "external": bool(job.get("external")),
                 "mod": job["mod"], "helper": job["helper"], "fn": res["fn"],
                 "rename": ren, "points": res["points"], "src": res["src"]}
@@ -239,7 +257,11 @@ def judge_fn(ctx, job, res, resps):
                 if more:
                     ctx.hist["simplification_more_defined_points"] = ctx.hist.get("simplification_more_defined_points", 0) + more
                     M["vals"] = [b if a == "undef" else a for a, b in zip(M["vals"], R["vals"])]
-            if not flags.get("condsAreCmp", True):
+            if "local_import" in feats:
+                # function-local imports (ctx.modules / ctx.fns) are not in the model: judged by the oracle alone
+                ctx.hist["model_silent:local_import"] = ctx.hist.get("model_silent:local_import", 0) + 1
+                M = None
+            elif not flags.get("condsAreCmp", True):
                 # a test that is not a comparison (truthiness of a number): sympy treats a bare Symbol condition
                 # specially (accepted by Piecewise, rejected by subs, folded away inside relationals); the model does not
                 # follow that, so these programs are judged by the oracle alone
@@ -263,7 +285,9 @@ def judge_fn(ctx, job, res, resps):
         cands = [fid for fid, pred in FINDINGS if pred(feats, flags, ren, res["params"])]
         finding = next((fid for fid in cands if fid in ctx.known), None)
         # a call with keyword arguments only has no Python semantics in the Lean model: outside the theorem's domain
-        in_domain = bool(flags.get("progOk")) and "call_kw_nopos" not in feats
+        in_domain = bool(flags.get("progOk")) and "call_kw_nopos" not in feats and "local_import" not in feats
+        if res.get("session2"):
+            ctx.hist["session:second_translation"] = ctx.hist.get("session:second_translation", 0) + 1
         nontrivial = status == "expr" and bool(feats & {"if", "ifexp", "call_user", "tuple_assign"} or "=" in res["src"])
         ctx.count({"src": res["src"], "rename": ren}, "", nontrivial)
         for f in feats:
@@ -278,7 +302,8 @@ def judge_fn(ctx, job, res, resps):
             # inside the domain of C06_sound_partial nothing is excused
             finding = None
         verdict = ctx.judge(case, R, S, M, finding=finding, what=what)
-        if verdict == "violation" and not job.get("shrunk") and not job.get("external") and ctx.extra_cov.get("shrunk", 0) < 3:
+        if (verdict == "violation" and not job.get("shrunk") and not job.get("external") and not res.get("session2")
+                and ctx.extra_cov.get("shrunk", 0) < 3):
             ctx.extra_cov["shrunk"] = ctx.extra_cov.get("shrunk", 0) + 1
             try:
                 sh = shrink_case(ctx, job, res, ob)
@@ -352,7 +377,7 @@ def shrink_case(ctx, job, res, ob):
 
     def evaluate(source):
         j = {"workdir": str(wd / "shrink"), "mod": job["mod"], "helper": job["helper"],
-             "sources": {job["helper"]: job["sources"][job["helper"]], job["mod"]: source},
+             "sources": {**{n: v for n, v in job["sources"].items() if n != job["mod"]}, job["mod"]: source},
              "fns": [fname], "seed": 0, "npoints": 12, "known_keys": ctx.known_keys,
              "points": {fname: res["points"]}, "renamings": {fname: [ren]}}
         try:
@@ -444,7 +469,7 @@ def run(ctx):
     setup(ctx)
     wd = workdir(ctx)
     try:
-        n = ctx.n(2000, 60000)
+        n = ctx.n(1600, 60000)
         if not ctx.proof_ok:
             n = max(n, 6000)
         done = 0
@@ -484,10 +509,13 @@ def replay(ctx, rp):
     try:
         job = {"workdir": str(wd), "mod": case["mod"], "helper": case["helper"], "sources": case["sources"],
                "external": case.get("external", False),
+               **({"session": case["session"], "session_only": True} if case.get("session") else {}),
                "fns": [case["fn"]], "seed": 0, "npoints": 12, "known_keys": ctx.known_keys,
                "points": {case["fn"]: case["points"]}, "renamings": {case["fn"]: [case["rename"]]}}
-        (res,) = L.evaluate_module(job)
+        res = L.evaluate_module(job)[-1]
         print(case.get("src", ""))
+        if case.get("session"):
+            print("session: translated once, then module constants re-bound to", case["session"], "and translated again")
         print("rename =", case["rename"])
         if "error" in res:
             print("encoder error", res["error"])
